@@ -58,6 +58,8 @@ type HarnessResult struct {
 	Pruned    int            `json:"pruned_error_paths"`
 	RangeMap  []string       `json:"range_over_map,omitempty"`
 	Notes     []string       `json:"notes,omitempty"`
+	Bounds    []string       `json:"stub_bounds,omitempty"`
+	Events    int            `json:"events"`
 }
 
 type job struct {
@@ -84,6 +86,7 @@ func main() {
 	unwind := flag.Int("unwind", 4, "unwinding bound before the solver is asked")
 	dump := flag.String("dump", "", "directory for .smt2 dumps of every query")
 	tags := flag.String("tags", "", "build tags")
+	splitMax := flag.Int("splitmax", 4, "bound on the number of parts strings.Split may yield (theory mode)")
 	doInit := flag.Bool("init", false, "execute the harness package's init (needed for level K globals)")
 	labels := flag.String("labels", "", "regexp: only obligations whose label matches are emitted (no-panic is always kept)")
 	flag.Parse()
@@ -160,7 +163,7 @@ func main() {
 		e := &Engine{prog: prog, targets: targets, inited: map[*ssa.Package]bool{}, globals: map[*ssa.Global]*Obj{},
 			gheap: map[*Obj]Value{}, funcs: map[string]int{}, fnInstrs: map[string]int{}, stubs: map[string]int{},
 			stack: map[ssa.Instruction]int{}, unwind: *unwind, panicC: FalseT, strMax: *strMax, solverName: *solver,
-			prefix: fmt.Sprintf("h%d_", hi), uf: map[string]*Term{}}
+			prefix: fmt.Sprintf("h%d_", hi), uf: map[string]*Term{}, splitMax: *splitMax, bounds: map[string]bool{}, optRecs: map[*Obj]*StructV{}}
 		t1 := time.Now()
 		func() {
 			defer func() {
@@ -223,6 +226,11 @@ func main() {
 		res.Funcs, res.FnInstrs, res.Stubs = e.funcs, e.fnInstrs, e.stubs
 		res.Instrs, res.Terms, res.Nondets, res.Asserts = e.ninstr, len(termList), len(e.nondets), len(e.asserts)
 		res.FeasCalls, res.RangeMap, res.Notes, res.Pruned = e.nfeas, e.rangeMap, e.notes, e.npruned
+		for b := range e.bounds {
+			res.Bounds = append(res.Bounds, b)
+		}
+		sort.Strings(res.Bounds)
+		res.Events = len(e.events)
 		if e.feas != nil {
 			e.feas.Close()
 		}
